@@ -167,6 +167,7 @@ def db_for_config(rng, scheme, cfg, many=False):
             pass
     used, db = set(), {}
     pool = None
+    doc_numbers = isz >= 2 and rng.random() < 0.5
     if max_files is not None:
         nfiles = max(max(lens), min(sum(lens), max_files))
         if nfiles > max_files:
@@ -177,7 +178,8 @@ def db_for_config(rng, scheme, cfg, many=False):
     for n in lens:
         kw = gen.gen_keyword(rng, kw_limit, used)
         used.add(kw)
-        db[kw] = gen.gen_ids(rng, isz, n, pool=pool)
+        # half of the databases use document-number identifiers (small and round integers on the full width)
+        db[kw] = gen.gen_ids(rng, isz, n, zero_rich=doc_numbers, pool=pool)
     return db
 
 
